@@ -86,6 +86,45 @@ def nonfinite_prefix_specs(ctx):
     return out
 
 
+def highdim_specs(ctx):
+    """31- and 33-dimensional spaces (the initialiser treats more than 30 dimensions separately) under a half-space constraint on the values,
+    default-like initialisation with grid / vertices / random counts; the feasible set cannot be enumerated, the monitor applies the predicate"""
+    rng = ctx.sub_rng("c02-highdim")
+    out = []
+    names = ["HillClimbingOptimizer", "RandomSearchOptimizer", "SimulatedAnnealingOptimizer", "RandomRestartHillClimbingOptimizer",
+             "StochasticHillClimbingOptimizer", "RandomAnnealingOptimizer", "PatternSearch", "DownhillSimplexOptimizer", "ParticleSwarmOptimizer",
+             "RepulsingHillClimbingOptimizer"]
+    for rd in range(1 if ctx.quick else 3):
+        for name in names:
+            nd = rng.choice([31, 33])
+            space = {"h%02d" % d: np.arange(3) for d in range(nd)}
+            coef = [1] * nd
+            bound = nd - rng.choice([2, 3])            # sum of the values > bound: a bit more than half of the space
+            spec = dict(name=name, space=space, table=sweep.LazyTable(space), calls=[dict(n_iter=16, memory=False, verbosity=False)],
+                        seed=rng.randrange(10 ** 6), init={"grid": rng.choice([2, 4]), "random": 2, "vertices": rng.choice([0, 2])}, cfg={},
+                        meta=[("int", "asc", 3)] * nd, steps_api=True, feasible=set(), pred=(coef, bound), constraint_desc=("value-halfspace-highdim", nd, bound))
+            out.append(spec)
+    return out
+
+
+def monitor_pred(ctx, spec, out):
+    """as monitor(), for constraints given as a predicate on the values (the feasible set is not enumerated)"""
+    name = spec["name"]
+    coef, bound = spec["pred"]
+    names = list(spec["space"].keys())
+    if out["exc"] is not None:
+        ctx.blocked.append(dict(spec=dict(name=name, constraint=spec["constraint_desc"]), exc=out["exc"][:2]))
+    for st in out["steps"]:
+        for para in st["obj_args"]:
+            if not (sum(c * float(para[n]) for c, n in zip(coef, names)) > bound):
+                ctx.violation(dict(optimizer=name, kind="infeasible-evaluated", init=bool(st["is_init"]), highdim=True),
+                              dict(optimizer=name, seed=spec["seed"], initialize=spec["init"], n_dimensions=len(names), constraint="sum(values) > %r" % bound,
+                                   step=[st["call"], st["k"]], para=jsonable(para)),
+                              "%s on a %d-dimensional space: the objective was evaluated on a parameter set with sum %r, violating sum > %r (%s step)"
+                              % (name, len(names), sum(float(para[n]) for n in names), bound, "init" if st["is_init"] else "iteration"))
+                return
+
+
 def offgrid_warm_specs(ctx, n):
     """a constraint that is a predicate on the parameter VALUES (a half-space a.x > b, also defined between grid points) and
     warm-start dictionaries whose values lie between two grid points next to the border: feasible as given, but the nearest
@@ -204,7 +243,7 @@ def run(ctx):
                         "DownhillSimplex with fewer inits than dims+1, populations larger than the number of inits, repeated "
                         "calls; value-predicate constraints with warm starts between two grid points next to the border; per optimizer two longer "
                         "runs with extreme hyper-parameters; model-based optimizers under constraints written as numpy reductions (np.sum / np.linalg.norm / np.any over the "
-                        "parameters) with the optimum in the infeasible region; model- / simplex- / pattern-building optimizers under constraints with every score of the initialisation non-finite; distinct by (optimizer, seed, constraint)")
+                        "parameters) with the optimum in the infeasible region; model- / simplex- / pattern-building optimizers under constraints with every score of the initialisation non-finite; 31- / 33-dimensional spaces under a value half-space; distinct by (optimizer, seed, constraint)")
     n_fast, n_slow = (72, 8) if ctx.quick else (540, 60)
     specs = sweep.sweep_specs(ctx, "c02", n_fast, n_slow, constraint=1.0) + special_specs(ctx, 24 if ctx.quick else 160) \
         + coupled_specs(ctx, 33 if ctx.quick else 220) + offgrid_warm_specs(ctx, 36 if ctx.quick else 200) \
@@ -217,6 +256,11 @@ def run(ctx):
         ctx.monitor_runs += 1
         ctx.monitor_nontrivial.add((spec["name"], spec["seed"], repr(spec.get("constraint_desc"))))
         monitor(ctx, spec, out)
+    for spec in highdim_specs(ctx):
+        out = instr.run_steps(spec)
+        ctx.monitor_runs += 1
+        ctx.monitor_nontrivial.add((spec["name"], spec["seed"], repr(spec.get("constraint_desc"))))
+        monitor_pred(ctx, spec, out)
 
 
 REPLAY = ("steps", monitor)      # harness/replay.py re-executes a recorded spec through this monitor
